@@ -32,7 +32,10 @@ def for_loops(func, ex=None):
                 rng = None
                 src = it
                 # iter variable has a single def from into_iter(range)
-                if isinstance(it, tuple) and it[0] == "var":
+                bl = base_local(func, ex, t["args"][0])
+                if bl is not None:
+                    src = _source_of_local(func, ex, bl)
+                elif isinstance(it, tuple) and it[0] == "var":
                     src = _single_source(func, ex, it[1])
                 if isinstance(src, tuple) and src[0] == "agg" and src[1].startswith("core::ops::range::Range"):
                     d = dict(src[2])
@@ -41,6 +44,35 @@ def for_loops(func, ex=None):
                             "site": "%s:%s" % (t["sp"]["file"], t["sp"]["line"])})
                 break
     return out
+
+
+def base_local(func, ex, op):
+    """follow `&mut (*_a)`, `_a = &mut x` chains from an operand down to the local it borrows"""
+    if op["k"] not in ("copy", "move"):
+        return None
+    l = op["pl"]["l"]
+    for _ in range(8):
+        ds = [d for d in ex.defs.get(l, []) if d[0] != "partial"]
+        if len(ds) != 1 or ds[0][0] != "rv":
+            return l
+        rv = ds[0][3]
+        if rv["k"] in ("ref", "rawptr"):
+            l = rv["pl"]["l"]
+            continue
+        if rv["k"] == "use" and rv["op"]["k"] in ("copy", "move") and not rv["op"]["pl"]["p"]:
+            l = rv["op"]["pl"]["l"]
+            continue
+        return l
+    return l
+
+
+def _source_of_local(func, ex, l):
+    ds = [d for d in ex.defs.get(l, []) if d[0] != "partial"]
+    if len(ds) == 1:
+        kind, bi, si, x = ds[0]
+        return ex.rvalue(x) if kind == "rv" else ex.call(x)
+    nm = func.local_names().get(l)
+    return ("var", nm if nm else "_%d" % l)
 
 
 def _single_source(func, ex, name):
@@ -515,3 +547,142 @@ def _match_fate(F, func, b, stmt, l):
     if only_print:
         return "dropped:err-arm-only-prints"
     return "handled:match"
+
+
+# ---------------------------------------------------------------- guards (DESIGN 3.5)
+def dominating_conds(func, block, ex=None):
+    """branch conditions known to hold on entry to `block`: list of (expr, how, vals, switch_block)
+    with how in {"is","not"}.  A condition counts when the arm's target block dominates `block` and
+    is entered only from that switch."""
+    g = cfg_of(func)
+    ex = ex or Exprs(func)
+    out = []
+    for b in sorted(g.dom().get(block, ())):
+        t = func.blocks[b]["term"]
+        if t["k"] != "switch":
+            continue
+        arms = {}
+        for v, tb in t["targets"]:
+            arms.setdefault(tb, []).append(v)
+        known = [v for v, _ in t["targets"]]
+        e = None
+        for tb, vals in arms.items():
+            if tb != t["otherwise"] and _arm_holds(g, b, tb, block):
+                e = e or ex.operand(t["discr"])
+                out.append((e, "is", tuple(vals), b))
+        ot = t["otherwise"]
+        if ot not in arms and _arm_holds(g, b, ot, block):
+            e = e or ex.operand(t["discr"])
+            out.append((e, "not", tuple(known), b))
+    return out
+
+
+def _arm_holds(g, b, tb, block):
+    if tb == block and g.pred[tb] == [b]:
+        return True
+    return g.pred[tb] == [b] and g.dominates(tb, block)
+
+
+def cond_bool(how, vals):
+    if how == "is" and vals == (0,):
+        return False
+    if how == "not" and vals == (0,):
+        return True
+    if how == "is" and vals == (1,):
+        return True
+    return None
+
+
+# ---------------------------------------------------------------- linear forms
+def linear(e):
+    """expression -> {atom_repr: coef, '1': const}; atoms are maximal non-additive subtrees"""
+    if isinstance(e, tuple):
+        if e[0] == "const" and isinstance(e[1], int):
+            return {"1": e[1]}
+        if e[0] == "bin" and e[1] in ("Add", "Sub"):
+            a, b = linear(e[2]), linear(e[3])
+            out = dict(a)
+            for k, v in b.items():
+                out[k] = out.get(k, 0) + (v if e[1] == "Add" else -v)
+            return {k: v for k, v in out.items() if v or k == "1"}
+        if e[0] == "bin" and e[1] == "Mul":
+            a, b = linear(e[2]), linear(e[3])
+            if set(a) <= {"1"}:
+                c = a.get("1", 0)
+                return {k: v * c for k, v in b.items()}
+            if set(b) <= {"1"}:
+                c = b.get("1", 0)
+                return {k: v * c for k, v in a.items()}
+        if e[0] == "cast":
+            return linear(e[1])
+    return {repr(e): 1}
+
+
+def lin_sub(a, b):
+    out = dict(a)
+    for k, v in b.items():
+        out[k] = out.get(k, 0) - v
+    return {k: v for k, v in out.items() if v}
+
+
+def cond_to_le0(e, truth):
+    """a comparison known to be `truth` -> list of linear forms L with L <= 0 (integers)"""
+    neg = False
+    while isinstance(e, tuple) and e[0] == "un" and e[1] == "Not":
+        e = e[2]
+        neg = not neg
+    if neg:
+        truth = not truth
+    if not (isinstance(e, tuple) and e[0] == "bin" and e[1] in ("Lt", "Le", "Eq", "Ne")):
+        return []
+    op, a, b = e[1], linear(e[2]), linear(e[3])
+    d = lin_sub(a, b)      # a - b
+    nd = {k: -v for k, v in d.items()}
+    def plus1(x):
+        y = dict(x)
+        y["1"] = y.get("1", 0) + 1
+        return y
+    if op == "Lt":
+        return [plus1(d)] if truth else [nd]          # a<b: a-b+1<=0 ; !(a<b): b-a<=0
+    if op == "Le":
+        return [d] if truth else [plus1(nd)]          # a<=b ; !(a<=b): b<a: b-a+1<=0
+    if op == "Eq" and truth:
+        return [d, nd]
+    if op == "Ne" and not truth:
+        return [d, nd]
+    return []
+
+
+def implies_le0(known, target):
+    """do the known forms (each <= 0) contain one that implies target <= 0?
+    (same non-constant part and a constant at least as large), or a sum of two that does"""
+    def split(x):
+        c = x.get("1", 0)
+        r = {k: v for k, v in x.items() if k != "1" and v}
+        return r, c
+    tr, tc = split(target)
+    if not tr:
+        return tc <= 0
+    for k in known:
+        kr, kc = split(k)
+        if kr == tr and kc >= tc:
+            return True
+    for i, k1 in enumerate(known):
+        for k2 in known[i + 1:]:
+            s = dict(k1)
+            for kk, v in k2.items():
+                s[kk] = s.get(kk, 0) + v
+            sr, sc = split(s)
+            if sr == tr and sc >= tc:
+                return True
+    return False
+
+
+def known_le0(func, block, ex=None):
+    out = []
+    for e, how, vals, b in dominating_conds(func, block, ex):
+        t = cond_bool(how, vals)
+        if t is None:
+            continue
+        out.extend(cond_to_le0(e, t))
+    return out
